@@ -33,6 +33,14 @@ struct WPay: VPay {
     WPay(long x): VPay(x) {}  // NOLINT
     WPay(const WPay& o): VPay((user_call(FID_COPY), static_cast<const VPay&>(o))) {}
     WPay(WPay&& o) noexcept: VPay(static_cast<VPay&&>(o)) {}
+    // construction from the caller's object (not used by the unmodified library; lets the driver keep compiling
+    // when a change builds a temporary T from the argument of store / operator=)
+    explicit WPay(const WSrc& s): VPay(s.v) {}
+    explicit WPay(WSrc&& s): VPay(s.v)
+    {
+        s.moved = true;
+        s.v = -7;
+    }
     WPay& operator=(const WPay& o)
     {
         user_call(FID_ASSIGN);
